@@ -867,6 +867,220 @@ fn rename_idents(statements: &[String], rng: &mut Rng) -> Vec<String> {
         .collect()
 }
 
+// ---------------------------------------------------------------------------------------------
+// generated sessions: seeded statement sequences over a small name pool (so that re-binding,
+// shadowing and capture-then-rebind happen all the time), monomorphic on purpose (every value is
+// an int, a cell of an int, a function, an iterator, an array, a struct or a module of ints): the
+// oracle is differential (REPL route vs batch route), so no expected values are needed - the
+// generator only has to keep most programs well-typed, which it does by tracking what each name
+// currently denotes.
+
+#[derive(Clone, Copy, PartialEq, Debug)]
+enum GK {
+    Int,
+    Cell,
+    Fun,
+    Iter,
+    Arr,
+    Struct,
+    Mod,
+}
+
+struct GenEnv {
+    names: Vec<(String, GK)>,
+}
+
+impl GenEnv {
+    fn bind(&mut self, n: &str, k: GK) {
+        self.names.retain(|(m, _)| m != n);
+        self.names.push((n.to_string(), k));
+    }
+    fn of(&self, k: GK) -> Vec<String> {
+        self.names.iter().filter(|(_, g)| *g == k).map(|(n, _)| n.clone()).collect()
+    }
+}
+
+const GEN_NAMES: [&str; 8] = ["a", "b", "c", "f", "g", "x", "y", "n"];
+
+fn gen_int_expr(rng: &mut Rng, env: &GenEnv, depth: u32, effects: bool) -> String {
+    let mut opts: Vec<String> = vec![format!("{}", rng.below(9))];
+    for n in env.of(GK::Int) {
+        opts.push(n);
+    }
+    for n in env.of(GK::Cell) {
+        opts.push(format!("*{n}"));
+        if effects {
+            opts.push(format!("({n} += {})", 1 + rng.below(3)));
+        }
+    }
+    for n in env.of(GK::Arr) {
+        opts.push(format!("{n}[0]"));
+        opts.push(format!("std.len({n})"));
+    }
+    for n in env.of(GK::Struct) {
+        opts.push(format!("{n}.p"));
+    }
+    for n in env.of(GK::Mod) {
+        opts.push(format!("{n}.v"));
+    }
+    if depth > 0 {
+        for n in env.of(GK::Fun) {
+            opts.push(format!("{n}({})", gen_int_expr(rng, env, depth - 1, effects)));
+        }
+        for n in env.of(GK::Mod) {
+            opts.push(format!("{n}.h({})", gen_int_expr(rng, env, depth - 1, effects)));
+        }
+        let l = gen_int_expr(rng, env, depth - 1, effects);
+        let r = gen_int_expr(rng, env, depth - 1, effects);
+        opts.push(format!("({l} {} {r})", ["+", "-", "*"][rng.below(3)]));
+    }
+    opts[rng.below(opts.len())].clone()
+}
+
+pub fn gen_session(rng: &mut Rng) -> Vec<String> {
+    let mut env = GenEnv { names: Vec::new() };
+    let mut out: Vec<String> = Vec::new();
+    let len = 6 + rng.below(9);
+    for _ in 0..len {
+        let n = GEN_NAMES[rng.below(GEN_NAMES.len())].to_string();
+        let cells = env.of(GK::Cell);
+        match rng.below(19) {
+            15 | 16 => {
+                // if-set / match arms bind a pool name for their body only
+                let l = GEN_NAMES[rng.below(GEN_NAMES.len())];
+                let e = gen_int_expr(rng, &env, 1, false);
+                let mut inner = GenEnv { names: env.names.clone() };
+                inner.bind(l, GK::Int);
+                let body = gen_int_expr(rng, &inner, 1, true);
+                if rng.chance(1, 2) {
+                    out.push(format!("if {l}: int = {e} {{ {body} }} else {{ 0 }}"));
+                } else {
+                    out.push(format!("match {e} {{ {l}: int => {body}, }}"));
+                }
+            }
+            17 if !cells.is_empty() => {
+                // a closure over a cell and a constant, then the names are re-bound
+                let c = &cells[rng.below(cells.len())];
+                let k = gen_int_expr(rng, &env, 0, false);
+                out.push(format!("{n} := (q: int) -> int {{ {c} += q; return *{c} + {k} }}"));
+                env.bind(&n, GK::Fun);
+            }
+            0 | 1 => {
+                out.push(format!("{n} := {}", gen_int_expr(rng, &env, 2, true)));
+                env.bind(&n, GK::Int);
+            }
+            2 | 3 => {
+                out.push(format!("{n} := mut {}", gen_int_expr(rng, &env, 1, false)));
+                env.bind(&n, GK::Cell);
+            }
+            4 | 5 => {
+                // a function: parameter and local names come from the same pool (they shadow)
+                let p = GEN_NAMES[rng.below(GEN_NAMES.len())];
+                let mut inner = GenEnv { names: env.names.clone() };
+                inner.bind(p, GK::Int);
+                // the function's own name denotes the function inside its body
+                if p != n {
+                    inner.bind(&n, GK::Fun);
+                }
+                let mut body = String::new();
+                if rng.chance(1, 2) {
+                    let l = GEN_NAMES[rng.below(GEN_NAMES.len())];
+                    if l != n.as_str() {
+                        body.push_str(&format!("{l} := {}; ", gen_int_expr(rng, &inner, 1, true)));
+                        inner.bind(l, GK::Int);
+                    }
+                }
+                if let (Some(c), true) = (inner.of(GK::Cell).first().cloned(), rng.chance(1, 2)) {
+                    body.push_str(&format!("{c} += {p}; "));
+                }
+                // no recursion (termination): the own name is not offered to the return expression
+                inner.names.retain(|(m, k)| !(m == &n && *k == GK::Fun));
+                body.push_str(&format!("return {}", gen_int_expr(rng, &inner, 1, false)));
+                out.push(format!("{n} := ({p}: int) -> int {{ {body} }}"));
+                env.bind(&n, GK::Fun);
+            }
+            6 if !cells.is_empty() => {
+                let c = &cells[rng.below(cells.len())];
+                let op = ["=", "+=", "-=", "*="][rng.below(4)];
+                out.push(format!("{c} {op} {}", gen_int_expr(rng, &env, 1, true)));
+            }
+            7 => out.push(gen_int_expr(rng, &env, 2, true)),
+            8 => {
+                // a block that shadows a pool name; the outer binding must survive
+                let l = GEN_NAMES[rng.below(GEN_NAMES.len())];
+                let mut inner = GenEnv { names: env.names.clone() };
+                let e = gen_int_expr(rng, &env, 1, false);
+                inner.bind(l, GK::Int);
+                out.push(format!("{{ {l} := {e}; {} }}", gen_int_expr(rng, &inner, 1, true)));
+            }
+            9 if !cells.is_empty() => {
+                let c = &cells[rng.below(cells.len())];
+                let l = GEN_NAMES[rng.below(GEN_NAMES.len())];
+                if l != c.as_str() {
+                    out.push(format!("for {l} in [{}, {}]~ {{ {c} += {l} }}", rng.below(5), rng.below(5)));
+                }
+            }
+            10 => {
+                let m = GEN_NAMES[rng.below(GEN_NAMES.len())].to_string();
+                if m != n {
+                    out.push(format!("({n}, {m}) := ({}, {})", gen_int_expr(rng, &env, 1, false), gen_int_expr(rng, &env, 1, false)));
+                    env.bind(&n, GK::Int);
+                    env.bind(&m, GK::Int);
+                }
+            }
+            11 => {
+                out.push(format!("{n} := mod {{ v := {}; h := (q: int) -> int {{ return q + v }} }}", gen_int_expr(rng, &env, 1, false)));
+                env.bind(&n, GK::Mod);
+            }
+            12 => {
+                out.push(format!("{n} := [{}, {}, {}]", gen_int_expr(rng, &env, 1, false), gen_int_expr(rng, &env, 1, false), rng.below(9)));
+                env.bind(&n, GK::Arr);
+            }
+            13 => {
+                let arrs = env.of(GK::Arr);
+                if let Some(a) = arrs.first() {
+                    out.push(format!("{n} := {a}~"));
+                } else {
+                    out.push(format!("{n} := [{}, 2, 3]~", rng.below(9)));
+                }
+                env.bind(&n, GK::Iter);
+            }
+            14 => {
+                let its = env.of(GK::Iter);
+                if let Some(i) = its.first() {
+                    match rng.below(3) {
+                        0 => out.push(format!("{i}()")),
+                        1 => {
+                            out.push(format!("{n} := {i} $]"));
+                            env.bind(&n, GK::Arr);
+                            // (a collected array may be empty: indexing it is not offered)
+                            env.names.retain(|(m, _)| m != &n);
+                        }
+                        _ => {
+                            out.push(format!("{n} := {i} $0 (s: int, e: int) -> int {{ return s + e }}"));
+                            env.bind(&n, GK::Int);
+                        }
+                    }
+                }
+            }
+            _ => {
+                out.push(format!("{n} := struct{{p := {}, q := {}}}", gen_int_expr(rng, &env, 1, false), rng.below(9)));
+                env.bind(&n, GK::Struct);
+            }
+        }
+    }
+    // final observation of everything that is an int or a cell
+    let mut obs: Vec<String> = env.of(GK::Int);
+    obs.extend(env.of(GK::Cell).into_iter().map(|c| format!("*{c}")));
+    obs.extend(env.of(GK::Fun).into_iter().map(|f| format!("{f}(1)")));
+    if obs.len() >= 2 {
+        out.push(format!("({})", obs.join(", ")));
+    } else if let Some(o) = obs.first() {
+        out.push(o.clone());
+    }
+    out
+}
+
 pub fn session_pool() -> Vec<(String, Vec<String>)> {
     let mut v: Vec<(String, Vec<String>)> = Vec::new();
     for (n, t) in SESSIONS {
@@ -888,13 +1102,21 @@ pub fn session_pool() -> Vec<(String, Vec<String>)> {
 pub fn gen(seed: u64, boot_seed: u64, run: u64, pool: &[(String, Vec<String>)]) -> Scenario {
     let mut rng = Rng::new(derive_n(seed, "c17-workload", run));
     let key_seed = derive_n(seed, "c17-keys", run);
-    let (name, base) = &pool[rng.below(pool.len())];
+    // one run in three executes a freshly generated session instead of one from the pool
+    let generated = if rng.chance(1, 3) { Some((format!("generated{run}"), gen_session(&mut rng))) } else { None };
+    let (name, base) = match &generated {
+        Some((n, b)) => (n, b),
+        None => {
+            let e = &pool[rng.below(pool.len())];
+            (&e.0, &e.1)
+        }
+    };
     let mut statements = base.clone();
     let mut name = name.clone();
     if statements.len() > 15 {
         statements.truncate(15);
     }
-    if rng.chance(1, 3) && !name.starts_with("kf_") {
+    if rng.chance(1, 3) && !name.starts_with("kf_") && generated.is_none() {
         statements = rename_idents(&statements, &mut rng);
         name.push_str("+renamed");
     }
